@@ -38,7 +38,7 @@ var c13Mutants = []string{"height+1", "height+5", "height-1", "prev-earlier", "p
 
 func genC13(t *rapid.T) c13Case {
 	genOp := rapid.Custom(func(t *rapid.T) c13Op {
-		op := rapid.SampledFrom([]string{"valid", "valid", "valid", "mutant", "mutant", "resubmit", "header", "badheader"}).Draw(t, "op")
+		op := rapid.SampledFrom([]string{"valid", "valid", "valid", "valid", "mutant", "mutant", "resubmit", "header", "badheader", "restart"}).Draw(t, "op")
 		o := c13Op{Op: op, Via: rapid.SampledFrom([]string{"submit", "addblock"}).Draw(t, "via")}
 		o.NTx = rapid.IntRange(0, 3).Draw(t, "ntx")
 		o.Arg = rapid.IntRange(0, 1000).Draw(t, "arg")
@@ -47,7 +47,7 @@ func genC13(t *rapid.T) c13Case {
 		}
 		return o
 	})
-	return c13Case{N: rapid.IntRange(1, 5).Draw(t, "n"), Ops: rapid.SliceOfN(genOp, 1, ev.Scale(14, 30)).Draw(t, "ops")}
+	return c13Case{N: rapid.IntRange(1, 5).Draw(t, "n"), Ops: rapid.SliceOfN(genOp, 1, ev.Scale(18, 34)).Draw(t, "ops")}
 }
 
 type c13World struct {
@@ -119,6 +119,18 @@ func (w *c13World) checkLookups() {
 	for h, mb := range w.model {
 		if st.GetBlockHash(uint32(h)) != mb.Hash() {
 			w.ctx.Failf("GetBlockHash(%d) differs from the committed block", h)
+		}
+		// header lookups first (as sync and consensus code does), then the block lookups
+		if h%2 == 0 {
+			hd, err := st.GetHeaderByHeight(uint32(h))
+			if err != nil || hd == nil || hd.Hash() != mb.Hash() {
+				w.ctx.Failf("GetHeaderByHeight(%d): %v", h, err)
+			}
+		} else {
+			hd, err := st.GetHeaderByHash(mb.Hash())
+			if err != nil || hd == nil || hd.Height != uint32(h) {
+				w.ctx.Failf("GetHeaderByHash(height %d): %v", h, err)
+			}
 		}
 		b, err := st.GetBlockByHeight(uint32(h))
 		if err != nil || b == nil || b.Hash() != mb.Hash() {
@@ -301,6 +313,22 @@ func runC13(ctx *ev.Ctx, c c13Case) {
 			}
 			if d := dumpsEqual(dump0, dump1); d != "" {
 				ctx.Failf("op %d: rejected %s (%s) changed the state store: %s", i, op.Op, op.Kind, d)
+			}
+		case "restart":
+			// a clean node restart: nothing may change, and lookups must still answer from the stores (not only from caches)
+			if w.pending != nil {
+				continue // an accepted-but-uncommitted header lives in memory only
+			}
+			if err := ch.Restart(); err != nil {
+				ctx.Failf("op %d: restart of the ledger failed: %v", i, err)
+			}
+			ctx.Label("restart")
+			h1, hash1, dump1 := w.snapshot()
+			if h1 != h0 || hash1 != hash0 {
+				ctx.Failf("op %d: restart changed the tip: %d -> %d", i, h0, h1)
+			}
+			if d := dumpsEqual(dump0, dump1); d != "" {
+				ctx.Failf("op %d: restart changed the state store: %s", i, d)
 			}
 		case "resubmit":
 			if len(w.model) < 2 {
